@@ -858,7 +858,7 @@ def to_string_m(M, ctx, r):
     if isinstance(v, StringV): return StringV(v.data)
     from .fmt_m import render_display
     out = []
-    render_display(M, r, out)
+    render_display(M, r, out, 'char' if type_head(ctx.self_ty or '') == 'char' else None)
     return StringV(out)
 
 @model('std::fmt::Write::write_str')
